@@ -26,7 +26,7 @@ SEQ = {
     "C02": dict(mc=["dur"], families=["dur"], needs=["op:set", "dv", "we"],
                 rule="durability family: writes with keep/LOW/MEDIUM/HIGH/NEVER, synthetic writes of every durability; "
                      "non-trivial = a write, a validated reuse and an execution in one history"),
-    "C03": dict(mc=["core", "dur", "untracked", "lru"], families=["core", "dur", "untracked", "lru", "struct"], needs=["op:set", "dv", "we", "eq"],
+    "C03": dict(mc=["core", "dur", "untracked", "lru"], families=["core", "dur", "untracked", "lru", "struct", "mixed"], needs=["op:set", "dv", "we", "eq"],
                 rule="non-trivial = history with a write, a reuse, a re-execution and a backdating comparison"),
     "C04": dict(mc=["untracked"], families=["untracked"], scale=3, needs=["op:cell", "we", "dv"],
                 rule="untracked family: cells read with report_untracked_read, changed together with synthetic writes; "
@@ -36,10 +36,10 @@ SEQ = {
                      "dropped and functions executed"),
     "C06": dict(families=["struct", "structlru", "structcoll", "mixed"], needs=["new", "we", "op:set"],
                 rule="struct family; non-trivial = structs created and a write"),
-    "C07": dict(families=["churn", "reclaim", "struct", "structcoll", "intern"], needs=["new", "int", "op:set"],
+    "C07": dict(families=["churn", "reclaim", "struct", "structcoll", "intern", "mixed"], needs=["new", "int", "op:set"],
                 rule="churn family (conditional struct creation, interned revisions=1..3 with a coarse hash so that slots "
                      "are shared, long write-heavy histories); non-trivial = structs and interned values created and writes"),
-    "C08": dict(families=["intern", "churn", "reclaim"], par=["parintern"], internmc=True, needs=["int", "op:set"],
+    "C08": dict(families=["intern", "churn", "reclaim", "mixed"], par=["parintern"], internmc=True, needs=["int", "op:set"],
                 rule="interning from several queries over a small value domain across revisions; non-trivial = interning "
                      "and a write in one history"),
     "C09": dict(families=["churn", "reclaim", "intern"], internmc=True, needs=["int", "irec", "op:set"],
